@@ -726,6 +726,7 @@ def run_case(ctx, case, model=True):
             ctx.count("leaf:mps-charge:" + ("zero" if all(v == 0 for t in f0.t for v in t) else "non-zero"))
             ctx.count(f"leaf:mps:maxD:{min(max(x.get_bond_dimensions()), 5)}")
     nleaves = len(objs)
+    isprod = [False] * nleaves
 
     # ---- steps --------------------------------------------------------------------------------
     for k, st in enumerate(case["steps"]):
@@ -747,6 +748,11 @@ def run_case(ctx, case, model=True):
             ctx.count("add:amps:" + ("complex" if any(c[1] for c in st["amps"]) else "mixed-sign" if any(c[0] < 0 for c in st["amps"]) else "positive"))
         if st["f"] == "matmul":
             ctx.count("matmul:" + ("mpo@mps" if nrp[st["a"][1]] == 1 else "mpo@mpo"))
+        # provenance: does a node contain a product a@b?  sums / differences mixing products with other objects are counted
+        fl = [isprod[i] for i in st.get("a", [])]
+        if st["f"] in ("add", "plus", "sub") and len(fl) > 1:
+            ctx.count("sum:operands:" + ("product+plain" if (any(fl) and not all(fl)) else "products" if all(fl) else "plain") + (":N1" if N == 1 else ""))
+        isprod.append(st["f"] == "matmul" or any(fl))
     ctx.count(f"N:{N}")
     ctx.count(f"universe:{case['uni']['ops']}:{case['uni']['sym']}")
 
@@ -855,6 +861,13 @@ def run_case(ctx, case, model=True):
                     and all(_dyadic_factor(objs[i]) for i in [b, k] + ol)
                 ctx.count("obs:measure_mpo" + (":sum" if len(ol) > 1 else "") + (":pbc" if any(isp[p] for p in ol) else "")
                           + (":all-bonds" if ob.get("bonds") else "") + (":mpo-states" if nrp[b] == 2 else ""))
+                for p in ol:
+                    if not isp[p]:
+                        vf, vl = objs[p].virtual_leg('first'), objs[p].virtual_leg('last')
+                        chg = "first" if any(v != 0 for t in vf.t for v in t) else "last" if any(v != 0 for t in vl.t for v in t) else None
+                        ctx.count("measure_mpo:op:" + (f"charge-on-{chg}-leg" if chg else "neutral") + (":virtual-legs-flipped" if vf.s == 1 else ":standard"))
+                ctx.count("measure_mpo:bra,ket:" + ("both-plain" if not (isprod[b] or isprod[k]) else "both-products" if (isprod[b] and isprod[k])
+                                                    else "product+plain") + (":N1" if N == 1 else ""))
             elif o == "from_tensor":
                 i = ob["x"]
                 x = objs[i]
@@ -1107,8 +1120,8 @@ def fixed_sector_cases():
         qs = [[int(v) for v in U.cfg.sym.add_charges(tuple(b), tuple(a), signatures=(1, -1), new_signature=1)] for a, b in zip(ts, ts2)]
         n1, n2 = list(total_charge(U, ts)), list(total_charge(U, ts2))
         leaves = [
-            {"kind": "random_mps", "seed": 21, "cplx": False, "factor": [2, 1], "n": n1, "D": 3, "sigma": 1},      # 0: psi  (sector n1)
-            {"kind": "random_mps", "seed": 22, "cplx": True, "factor": [1, 2], "n": n2, "D": 2, "sigma": 1},       # 1: phi  (sector n2)
+            {"kind": "random_mps", "seed": 21, "cplx": False, "factor": [2, 1], "n": n1, "D": 5, "sigma": 2},      # 0: psi  (sector n1)
+            {"kind": "random_mps", "seed": 22, "cplx": True, "factor": [1, 2], "n": n2, "D": 4, "sigma": 2},       # 1: phi  (sector n2)
             {"kind": "product_mps", "seed": 23, "cplx": True, "factor": [1, 1], "ts": ts},                         # 2
             {"kind": "product_mps", "seed": 24, "cplx": False, "factor": [3, 1], "ts": ts2},                       # 3
             {"kind": "product_mpo", "seed": 25, "cplx": True, "factor": [3, 1], "qs": qs},                         # 4: O    (n1 -> n2)
